@@ -67,7 +67,7 @@ pub fn run_scenarios(run: &mut Run, scns: &[Scenario], budget: &Budget) {
 			"  scenario {:<40} states={} transitions={} executions={} depth={} outcomes={} multi-stage={} pm-traces={} {}{:.1}s",
 			scn.name, st.states, st.transitions, st.executions, st.max_depth, st.distinct_obs, st.multi_stage_states,
 			st.pm_validated_traces,
-			if st.complete && scn.merge_check { format!("identity-validated={}/{} ", st.merge_checked_states, st.merge_checked_edges) } else if st.complete { String::new() } else { "CAPPED ".to_string() },
+			if st.complete && scn.merge_check { format!("identity-validated={}/{}{} ", st.merge_checked_states, st.merge_checked_edges, if st.merge_layout_only > 0 { format!("(layout-only differences: {})", st.merge_layout_only) } else { String::new() }) } else if st.complete { String::new() } else { "CAPPED ".to_string() },
 			t0.elapsed().as_secs_f64()
 		);
 		run.parts.push(json!({
@@ -77,7 +77,7 @@ pub fn run_scenarios(run: &mut Run, scns: &[Scenario], budget: &Budget) {
 			"max_depth": st.max_depth, "distinct_outcomes": st.distinct_obs,
 			"states_with_commits_at_2_or_more_stages": st.multi_stage_states,
 			"complete": st.complete, "capped": st.capped_reason,
-			"state_identity_validation": if scn.merge_check { json!({"merged_states_re_expanded_from_an_alternative_history": st.merge_checked_states, "edges_compared": st.merge_checked_edges}) } else { json!(null) },
+			"state_identity_validation": if scn.merge_check { json!({"merged_states_re_expanded_from_an_alternative_history": st.merge_checked_states, "edges_compared": st.merge_checked_edges, "of_these_equal_up_to_log_record_layout": st.merge_layout_only}) } else { json!(null) },
 			"levels": st.levels.iter().map(|(a, b)| json!([a, b])).collect::<Vec<_>>(),
 		}));
 		if run.samples.len() < 5 {
